@@ -643,6 +643,13 @@ void SPxSolverBase<R>::changeLhs(const VectorBase<R>& newLhs, bool scale)
          changeLhsStatus(i, this->lhs(i));
 
       unInit();
+
+      for(int i = 0; i < this->nRows(); ++i)
+         if(this->desc().rowStatus(i) == SPxBasisBase<R>::Desc::P_FREE)
+         {
+            SPxBasisBase<R>::changedRow(i);
+            break;
+         }
    }
 }
 
@@ -660,6 +667,10 @@ void SPxSolverBase<R>::changeLhs(int i, const R& newLhs, bool scale)
       {
          changeLhsStatus(i, this->lhs(i), oldLhs);
          unInit();
+
+         // a non-basic row that became free would be kept at activity zero and never priced: drop the basis
+         if(this->desc().rowStatus(i) == SPxBasisBase<R>::Desc::P_FREE)
+            SPxBasisBase<R>::changedRow(i);
       }
    }
 }
@@ -770,6 +781,13 @@ void SPxSolverBase<R>::changeRhs(const VectorBase<R>& newRhs, bool scale)
          changeRhsStatus(i, this->rhs(i));
 
       unInit();
+
+      for(int i = 0; i < this->nRows(); ++i)
+         if(this->desc().rowStatus(i) == SPxBasisBase<R>::Desc::P_FREE)
+         {
+            SPxBasisBase<R>::changedRow(i);
+            break;
+         }
    }
 }
 
@@ -787,6 +805,10 @@ void SPxSolverBase<R>::changeRhs(int i, const R& newRhs, bool scale)
       {
          changeRhsStatus(i, this->rhs(i), oldRhs);
          unInit();
+
+         // a non-basic row that became free would be kept at activity zero and never priced: drop the basis
+         if(this->desc().rowStatus(i) == SPxBasisBase<R>::Desc::P_FREE)
+            SPxBasisBase<R>::changedRow(i);
       }
    }
 }
@@ -810,6 +832,13 @@ void SPxSolverBase<R>::changeRange(const VectorBase<R>& newLhs, const VectorBase
       }
 
       unInit();
+
+      for(int i = 0; i < this->nRows(); ++i)
+         if(this->desc().rowStatus(i) == SPxBasisBase<R>::Desc::P_FREE)
+         {
+            SPxBasisBase<R>::changedRow(i);
+            break;
+         }
    }
 }
 
@@ -831,6 +860,9 @@ void SPxSolverBase<R>::changeRange(int i, const R& newLhs, const R& newRhs, bool
       changeLhsStatus(i, this->lhs(i), oldLhs);
       changeRhsStatus(i, this->rhs(i), oldRhs);
       unInit();
+
+      if(this->desc().rowStatus(i) == SPxBasisBase<R>::Desc::P_FREE)
+         SPxBasisBase<R>::changedRow(i);
    }
 }
 
